@@ -4,10 +4,12 @@ import (
 	"bytes"
 	"compress/gzip"
 	"fmt"
+	"github.com/stevenh/tracktools/pkg/gopro"
 	"go/ast"
 	"go/parser"
 	"go/token"
 	"io"
+	"io/fs"
 	"math"
 	"os"
 	"os/exec"
@@ -58,7 +60,7 @@ func clBuild(cfg *config) (string, error) {
 //
 // cl cmd=<convert|gopro.convert|gopro.laptimes|gopro.render> which=<explicit|cwd|home|both|none|missing>
 //    F=<flag:kind:hexvalue,…|~> C=<dotted.path:kind:hexvalue,…|~> H=<same, the home file when which=both|~>
-//    io=<f|s><f|o>[x] in=<hex input|->      (x: the output file exists already, with longer content)
+//    io=<f|s|r><f|o>[x] in=<hex input|->    (input: file, pipe, redirected file; output: file, stdout; x: the output file exists already, with longer content)
 //
 // kinds: s string, b bool, i int, f float (decimal text), l string list (hex items joined by +), d date
 
@@ -303,6 +305,64 @@ func clGet(obs, path string) (kind, val string, ok bool) {
 	return "", "", false
 }
 
+// clGoproTree lays out a source tree for `gopro convert`: a two-chapter video in the directory
+// itself, in src/ and in other/ (different numbers, so that the joined name says where it came
+// from), and an encoder stand-in that records its arguments and creates its output.
+func clGoproTree(dir string) {
+	for i, d := range []string{".", "src", "other"} {
+		os.MkdirAll(filepath.Join(dir, d), 0o755)
+		for c, name := range []string{fmt.Sprintf("GOPR%04d.mp4", i+1), fmt.Sprintf("GP01%04d.mp4", i+1)} {
+			f := filepath.Join(dir, d, name)
+			os.WriteFile(f, []byte("video"), 0o644)
+			mt := time.Unix(int64(1600000000+100*i+c), 0)
+			os.Chtimes(f, mt, mt)
+		}
+	}
+	os.WriteFile(filepath.Join(dir, "fake.sh"), []byte("#!/bin/sh\nfor a in \"$@\"; do printf '%s\\n' \"$a\" >> ffmpeg.log; last=\"$a\"; done\nprintf -- '--\\n' >> ffmpeg.log\n: > \"$last\"\n"), 0o755)
+}
+
+// clGoproState: what the encoder stand-in was asked to do and what the tree looks like afterwards
+func clGoproState(dir string) string {
+	var b strings.Builder
+	log, _ := os.ReadFile(filepath.Join(dir, "ffmpeg.log"))
+	for _, l := range strings.Split(string(log), "\n") {
+		if strings.HasPrefix(l, os.TempDir()) {
+			l = "<tmp>" // the concat list
+		}
+		b.WriteString(l + "|")
+	}
+	filepath.WalkDir(dir, func(path string, d fs.DirEntry, err error) error {
+		if err != nil || d.IsDir() || !strings.HasSuffix(strings.ToLower(path), ".mp4") {
+			return nil
+		}
+		rel, _ := filepath.Rel(dir, path)
+		fi, _ := d.Info()
+		fmt.Fprintf(&b, " %s@%d", rel, fi.ModTime().Unix())
+		return nil
+	})
+	return b.String()
+}
+
+// clGoproLibrary runs the library with the option values the binary reported, in a fresh copy
+// of the tree: the command must do what the library does for those values.
+func clGoproLibrary(root, obs string) (state string, failed bool) {
+	dir := filepath.Join(root, "lib")
+	clGoproTree(dir)
+	str := func(p string) string { _, v, _ := clGet(obs, p); return unhexStr(v) }
+	list := func(p string) []string { _, v, _ := clGet(obs, p); return clItems(v) }
+	_, ow, _ := clGet(obs, "Overwrite")
+	cfg := gopro.Config{LogLevel: str("LogLevel"), SourceDir: str("SourceDir"), Binary: str("Binary"), Args: list("Args"),
+		SkipNames: list("SkipNames"), OutputTemplate: str("OutputTemplate"), OutputDir: str("OutputDir"), Overwrite: ow == "true"}
+	old, _ := os.Getwd()
+	os.Chdir(dir)
+	defer os.Chdir(old)
+	p, err := gopro.NewProcessor(gopro.Cfg(cfg), gopro.Output(io.Discard))
+	if err == nil {
+		_, err = p.Process()
+	}
+	return clGoproState(dir), err != nil
+}
+
 // clPipeline: the library pipeline (decode, convert, encode) for the option values the binary
 // reported as effective.
 func clPipeline(obs string, input []byte) ([]byte, error) {
@@ -456,6 +516,8 @@ func clRun(cfg *config, toks []string) string {
 		args = append(args, "in.mp4")
 	case "gopro.render":
 		args = append(args, "absent.mp4", "out.png")
+	case "gopro.convert":
+		clGoproTree(cwd)
 	}
 	var stdout, stderr bytes.Buffer
 	var runErr error
@@ -466,7 +528,15 @@ func clRun(cfg *config, toks []string) string {
 		c.Dir = cwd
 		c.Env = []string{"HOME=" + home, "PATH=/usr/bin:/bin", "NO_COLOR=1"}
 		if cmdName == "convert" && iomode[0] == 's' {
-			c.Stdin = bytes.NewReader(input)
+			c.Stdin = bytes.NewReader(input) // a pipe
+		}
+		if cmdName == "convert" && iomode[0] == 'r' {
+			// standard input redirected from a regular file (tracktools convert - out < session.csv)
+			os.WriteFile(filepath.Join(cwd, "redirected.csv"), input, 0o644)
+			if f, err := os.Open(filepath.Join(cwd, "redirected.csv")); err == nil {
+				defer f.Close()
+				c.Stdin = f
+			}
 		}
 		c.Stdout, c.Stderr = &stdout, &stderr
 		done := make(chan error, 1)
@@ -586,6 +656,24 @@ func clRun(cfg *config, toks []string) string {
 			}
 		}
 		extra = fmt.Sprintf(" wrote=%s pipe=%s", wrote, pipe)
+	case "gopro.convert":
+		gc := "na"
+		if okObs {
+			want, failed := clGoproLibrary(root, obs)
+			got := clGoproState(cwd)
+			switch {
+			case failed != (exit != 0):
+				gc = fmt.Sprintf("status-lib-failed-%v", failed)
+			case got != want:
+				gc = "differ"
+				if os.Getenv("VERIF_DEBUG_CL") != "" {
+					fmt.Fprintf(os.Stderr, "DEBUG got  %s\nDEBUG want %s\n", got, want)
+				}
+			default:
+				gc = "same"
+			}
+		}
+		extra = " gc=" + gc
 	case "gopro.laptimes":
 		hits := strings.Count(errText, "start line passed")
 		if os.Getenv("VERIF_DEBUG_CL") != "" {
@@ -676,7 +764,7 @@ func clValue(r *rng, cmd string, o clOpt, src int) string {
 		case "sourcedir", "outputdir":
 			return hexStr(pick(r, []string{"src", ".", "other", ""}))
 		case "binary":
-			return hexStr(pick(r, []string{"ffmpeg", "true"}))
+			return hexStr(pick(r, []string{"ffmpeg", "true", "./fake.sh", "./fake.sh", "./fake.sh"}))
 		case "loglevel":
 			return hexStr(pick(r, []string{"warn", "debug", "info"}))
 		case "outputtemplate":
@@ -780,7 +868,7 @@ func genCL(cfg *config, r *rng, i int, s *sink) string {
 		h = clGenConf(r, cmd, 2, s)
 	}
 	in := "-"
-	io := pick(r, []string{"ff", "fo", "sf", "so"})
+	io := pick(r, []string{"ff", "fo", "sf", "so", "rf", "ro"})
 	if io[1] == 'f' && r.chance(1, 2) {
 		io += "x" // over an existing, longer file
 	}
@@ -850,7 +938,16 @@ func genCL(cfg *config, r *rng, i int, s *sink) string {
 }
 
 func corpusCL(cfg *config) []string {
+	gc := "gopro.convert.binary:s:" + hexStr("./fake.sh") + ",gopro.convert.args:l:" + strings.Join([]string{hexStr("-y"), hexStr("-i"), hexStr(""), hexStr("-c"), hexStr("copy")}, "+") +
+		",gopro.convert.outputtemplate:s:" + hexStr("{{.Name}}-JOINED{{.Ext}}") + ",gopro.convert.loglevel:s:" + hexStr("info")
 	return []string{
+		// gopro convert acts on the effective directories: no output directory = next to the sources,
+		// an empty --output-dir likewise (and beats the file), an empty --source-dir is a failure
+		"cl cmd=gopro.convert which=explicit F=~ C=" + gc + ",gopro.convert.sourcedir:s:" + hexStr("src") + " H=~ io=ff in=-",
+		"cl cmd=gopro.convert which=explicit F=output-dir:s:- C=" + gc + ",gopro.convert.sourcedir:s:" + hexStr("src") + ",gopro.convert.outputdir:s:" + hexStr("other") + " H=~ io=ff in=-",
+		"cl cmd=gopro.convert which=explicit F=source-dir:s:" + hexStr("other") + " C=" + gc + ",gopro.convert.sourcedir:s:" + hexStr("src") + ",gopro.convert.outputdir:s:" + hexStr("src") + " H=~ io=ff in=-",
+		"cl cmd=gopro.convert which=explicit F=source-dir:s:- C=" + gc + ",gopro.convert.sourcedir:s:" + hexStr("src") + " H=~ io=ff in=-",
+		"cl cmd=gopro.convert which=cwd F=~ C=" + gc + ",gopro.convert.sourcedir:s:" + hexStr(".") + ",gopro.convert.outputdir:s:" + hexStr("") + " H=~ io=ff in=-",
 		// the start-line flags against a config file that states the Start table (was: config won)
 		"cl cmd=gopro.laptimes which=explicit F=latitude:f:" + hexStr("50.8501") + ",bearing:f:" + hexStr("90") +
 			" C=gopro.laptimes.start.latitude:f:" + hexStr("1.5") + ",gopro.laptimes.start.longitude:f:" + hexStr("-0.7501") +
@@ -866,6 +963,9 @@ func corpusCL(cfg *config) []string {
 		"cl cmd=convert which=none F=~ C=~ H=~ io=sf in=" + hexStr("Time,UTC Time,Lap,GPS_Update,Latitude,Longitude\n0.010,1653983971.010,0,1,fifty,-0.7\n"),
 		"cl cmd=convert which=none F=~ C=~ H=~ io=so in=" + hexStr("Time,UTC Time,Lap,GPS_Update,Latitude,Longitude,Bogus\n0.010,1653983971.010,0,1,50.1,-0.7,1\n"),
 		"cl cmd=convert which=none F=~ C=~ H=~ io=ffx in=" + hexStr("Time,UTC Time,Lap,GPS_Update,Latitude,Longitude\n0.010,1653983971.010,0,1,50.1,-0.7\n# Lap x: 00:01:02.003\n"),
+		// standard input redirected from a regular file, to standard output and to a named file
+		"cl cmd=convert which=none F=~ C=~ H=~ io=ro in=" + hexStr("Time,UTC Time,Lap,GPS_Update,Latitude,Longitude\n0.010,1653983971.010,0,1,50.1,-0.7\n"),
+		"cl cmd=convert which=none F=compress:b:" + hexStr("true") + " C=~ H=~ io=rf in=" + hexStr("Time,UTC Time,Lap,GPS_Update,Latitude,Longitude\n0.010,1653983971.010,0,1,50.1,-0.7\n"),
 		// the named output file exists already and is longer than the new document
 		"cl cmd=convert which=none F=~ C=~ H=~ io=ffx in=" + hexStr("Time,UTC Time,Lap,GPS_Update,Latitude,Longitude\n0.010,1653983971.010,0,1,50.1,-0.7\n"),
 		"cl cmd=convert which=none F=compress:b:" + hexStr("true") + " C=~ H=~ io=sfx in=" + hexStr("Time,UTC Time,Lap,GPS_Update,Latitude,Longitude\n0.010,1653983971.010,0,1,50.1,-0.7\n"),
